@@ -325,9 +325,15 @@ type sgGenState struct {
 	answerDropped bool
 	remotePTs     map[string]bool // kind|pt|codec seen in an earlier applied remote description
 	pendingPTs    []string
-	unapplied     map[string]bool
-	newMids       map[string]bool // mids the most recent applied offer introduced
-	newByOffer    map[string]bool // mids whose transceiver was created by the most recent SetRemoteDescription(offer)
+	unapplied     map[string]string // mid -> kind: handed to a local transceiver by CreateOffer, never part of an applied local description
+	collided      map[string]bool   // a remote description was applied that uses such a mid
+	midKind       map[string]string // kind of the section a mid named in applied descriptions
+	// the description being looked at was generated by CreateOffer in have-local-offer (the layout
+	// is then rebuilt without regard to the pending offer)
+	offerWhilePending bool
+	tainted           string          // non-empty: why later descriptions of this peer are beyond the clean preconditions
+	newMids           map[string]bool // mids the most recent applied offer introduced
+	newByOffer        map[string]bool // mids whose transceiver was created by the most recent SetRemoteDescription(offer)
 }
 
 func sgStateOf(ps *sgPeerState) *sgGenState {
@@ -346,6 +352,7 @@ func sgMonitorGenerated(r *sgRun, ps *sgPeerState, rec *sgRec) {
 	created := (rec.Kind == "create-offer" || rec.Kind == "create-answer") && rec.Err == "" && rec.Desc != nil
 	applied := rec.Kind == "setremote" && rec.Err == "" && rec.Desc != nil && rec.Type != "rollback"
 	who := fmt.Sprintf("peer %d op %d (%s)", pi, rec.Idx, rec.Op.Kind)
+	g.offerWhilePending = rec.Kind == "create-offer" && rec.Pre.State == "have-local-offer"
 
 	if rec.Kind == "setremote" && rec.Type == "offer" {
 		g.newByOffer = map[string]bool{}
@@ -371,18 +378,38 @@ func sgMonitorGenerated(r *sgRun, ps *sgPeerState, rec *sgRec) {
 				}
 			}
 			if rec.Kind == "create-offer" && g.seenMids[mid] && unified {
-				r.viol("C09", "new-transceiver-reuses-earlier-mid", fmt.Sprintf("%s: CreateOffer gave a new transceiver mid %q, which appeared in an earlier description", who, mid))
+				r.viol("C09", "new-transceiver-reuses-earlier-mid"+sgOrigin(g, mid), fmt.Sprintf("%s: CreateOffer gave a new transceiver mid %q, which appeared in an earlier description", who, mid))
 			}
 		}
 		g.trMid[t] = mid
 	}
 	if rec.Kind == "setlocal" && rec.Err == "" && rec.Type != "rollback" && unified {
 		if ld := pc.LocalDescription(); ld != nil {
-			sgRecordPositions(g, vfParseSDP(ld.SDP))
+			lp := vfParseSDP(ld.SDP)
+			sgRecordPositions(g, lp)
+			if g.midKind == nil {
+				g.collided, g.midKind = map[string]bool{}, map[string]string{}
+			}
+			for _, sec := range lp.Sections {
+				if m, ok := sec.Mid(); ok {
+					if _, seen := g.midKind[m]; !seen {
+						g.midKind[m] = sec.Kind
+					}
+				}
+			}
 		}
-		for k := range g.unapplied {
-			delete(g.unapplied, k) // whatever was created before is either applied now or superseded
+		if ld := pc.LocalDescription(); ld != nil {
+			for _, sec := range vfParseSDP(ld.SDP).Sections {
+				if m, ok := sec.Mid(); ok && g.unapplied[m] == sec.Kind {
+					delete(g.unapplied, m) // this assignment is now part of an applied local description
+				}
+			}
 		}
+	}
+	// a call that returned an error and nevertheless changed the signaling state (the open C03
+	// finding): what this peer generates afterwards starts from a state no accepted call produced
+	if (rec.Kind == "setlocal" || rec.Kind == "setremote") && rec.Err != "" && rec.Pre.State != rec.Post.State && g.tainted == "" {
+		g.tainted = ":after-a-rejected-description-was-committed"
 	}
 	if !created && !applied {
 		return
@@ -390,15 +417,34 @@ func sgMonitorGenerated(r *sgRun, ps *sgPeerState, rec *sgRec) {
 	p := vfParseSDP(rec.Desc.SDP)
 	if rec.Kind == "create-offer" {
 		if g.unapplied == nil {
-			g.unapplied = map[string]bool{}
+			g.unapplied = map[string]string{}
 		}
 		for _, s := range p.Sections {
-			if m, ok := s.Mid(); ok && !g.seenMids[m] {
-				g.unapplied[m] = true // mid handed out by a CreateOffer whose result has not been set (yet)
+			if m, ok := s.Mid(); ok && !g.seenMids[m] && s.Kind != "application" {
+				if _, have := g.unapplied[m]; !have {
+					g.unapplied[m] = s.Kind // mid handed out by a CreateOffer whose result has not been set (yet)
+				}
 			}
 		}
 	}
 	if applied {
+		if g.collided == nil {
+			g.collided, g.midKind = map[string]bool{}, map[string]string{}
+		}
+		for _, s := range p.Sections {
+			m, ok := s.Mid()
+			if !ok {
+				continue
+			}
+			if _, prov := g.unapplied[m]; prov {
+				g.collided[m] = true // the remote uses a mid pion gave away in an offer that was never applied
+			}
+			if k, seen := g.midKind[m]; seen && k != s.Kind && g.tainted == "" {
+				// not a legal renegotiation: a mid keeps its media kind for the life of the session
+				g.tainted = ":remote-changed-the-kind-of-a-mid"
+			}
+			g.midKind[m] = s.Kind
+		}
 		if g.remotePTs == nil {
 			g.remotePTs = map[string]bool{}
 		}
@@ -430,14 +476,14 @@ func sgMonitorGenerated(r *sgRun, ps *sgPeerState, rec *sgRec) {
 						cls = "m-section-moved:answer-dropped-offered-sections" // the C07 defect seen through C09
 					}
 				}
-				r.viol("C09", cls, fmt.Sprintf("%s: mid %q is section %d, it was section %d in an earlier description", who, mid, i, old))
+				r.viol("C09", cls+sgOrigin(g, mid), fmt.Sprintf("%s: mid %q is section %d, it was section %d in an earlier description", who, mid, i, old))
 			}
 			if om, seen := g.idxMid[i]; seen && om != mid && created {
 				cls := "m-section-position-renamed"
 				if g.answerDropped {
 					cls = "m-section-position-renamed:after-an-answer-dropped-offered-sections" // the C07 defect seen through C09
 				}
-				r.viol("C09", cls, fmt.Sprintf("%s: section %d has mid %q, it had mid %q in an earlier description", who, i, mid, om))
+				r.viol("C09", cls+sgOrigin(g, mid, om), fmt.Sprintf("%s: section %d has mid %q, it had mid %q in an earlier description", who, i, mid, om))
 			}
 		}
 		// positions are recorded from descriptions that were applied (local or remote), a created
@@ -492,7 +538,7 @@ func sgMonitorGenerated(r *sgRun, ps *sgPeerState, rec *sgRec) {
 			if m == "data" && ps.cfg.Semantics != 0 {
 				cls = "duplicate-mid:plan-b-data-section-vs-remote-mid-named-data"
 			}
-			r.viol("C06", cls, fmt.Sprintf("%s: mid %q is used by %d m-sections", who, m, n))
+			r.viol("C06", cls+sgOrigin(g, m), fmt.Sprintf("%s: mid %q is used by %d m-sections", who, m, n))
 		}
 	}
 	var bundle []string
@@ -714,11 +760,12 @@ func sgCheckAnswer(r *sgRun, ps *sgPeerState, rec *sgRec, ans, off *vfSDP, who s
 		om, _ := o.Mid()
 		if unified {
 			if a.Kind != o.Kind {
-				cls := "answer-section-kind-differs"
-				if g.unapplied[om] {
-					// CreateOffer assigned this mid to a local transceiver, the offer was never set, and
-					// the remote offer uses the same mid for a section of another kind
-					cls = "answer-section-kind-differs:mid-was-assigned-by-an-unapplied-createoffer"
+				// (CreateOffer assigned this mid to a local transceiver, the offer was never set, and
+				// the remote offer uses the same mid for a section of another kind: known origin)
+				cls := "answer-section-kind-differs" + sgOrigin(g, om)
+				if g.tainted == ":remote-changed-the-kind-of-a-mid" {
+					r.res.stat("answers_to_offers_that_change_the_kind_of_a_mid_not_judged", 1)
+					continue
 				}
 				r.viol("C07", cls, fmt.Sprintf("%s: section %d is %s in the offer, %s in the answer", who, i, o.Kind, a.Kind))
 				continue
@@ -754,7 +801,7 @@ func sgCheckAnswer(r *sgRun, ps *sgPeerState, rec *sgRec, ans, off *vfSDP, who s
 			if g.newMids[om] {
 				hist = ":section-new-in-this-offer"
 			}
-			r.viol("C08", "illegal-answer-direction:offered-"+od+"-answered-"+ad+hist, fmt.Sprintf("%s: section %d (mid %q) offered %s, answered %s", who, i, om, od, ad))
+			r.viol("C08", "illegal-answer-direction:offered-"+od+"-answered-"+ad+hist+sgOriginMid(g, om), fmt.Sprintf("%s: section %d (mid %q) offered %s, answered %s", who, i, om, od, ad))
 		}
 		// C16 codecs
 		om2, am2 := sgRtpmaps(o), sgRtpmaps(a)
@@ -767,6 +814,8 @@ func sgCheckAnswer(r *sgRun, ps *sgPeerState, rec *sgRec, ans, off *vfSDP, who s
 		}
 		if ps.explicitPrefs {
 			origin += "+setcodecpreferences-with-payload-types"
+		} else if ps.anyPrefs {
+			origin += "+setcodecpreferences"
 		}
 		listed := map[string]bool{}
 		for _, f := range o.Fmts {
@@ -933,4 +982,31 @@ func sgCheckOffer(r *sgRun, ps *sgPeerState, rec *sgRec, off *vfSDP, g *sgGenSta
 	if !wantApp && hasApp && !g.sawRemoteApp {
 		r.viol("C12", "application-section-without-data-channel", fmt.Sprintf("%s: no data channel was created and AlwaysNegotiateDataChannels is off, but the offer has an application section", who))
 	}
+}
+
+// sgOrigin names a known origin of a violation that involves the given mids: a mid that pion
+// handed to a local transceiver in an offer that was never applied and that the remote then used
+// (the open C07 finding), or a peer whose state was changed by a rejected call (the open C03
+// finding). Empty when neither applies.
+func sgOrigin(g *sgGenState, mids ...string) string {
+	if g.offerWhilePending {
+		return ":createoffer-while-a-local-offer-is-pending"
+	}
+	for _, m := range mids {
+		if g.collided[m] {
+			return ":mid-was-assigned-by-an-unapplied-createoffer"
+		}
+	}
+	if g.tainted == ":after-a-rejected-description-was-committed" {
+		return g.tainted
+	}
+	return ""
+}
+
+// sgOriginMid is sgOrigin restricted to the origin that concerns the mid itself.
+func sgOriginMid(g *sgGenState, mid string) string {
+	if g.collided[mid] {
+		return ":mid-was-assigned-by-an-unapplied-createoffer"
+	}
+	return ""
 }
